@@ -231,6 +231,15 @@ func init() {
 		"google.golang.org/protobuf/proto.Clone": simple(func(e *Engine, s *State, a []Value, at ssa.Instruction, _ *ssa.Function) Value {
 			return e.deepCopy(s, a[0], map[int]int{})
 		}),
+		// reflect.TypeOf: the dynamic type as an interface value wrapping its name; equality of two
+		// results is type identity, String() is the name
+		"reflect.TypeOf": simple(func(e *Engine, s *State, a []Value, at ssa.Instruction, _ *ssa.Function) Value {
+			i, ok := a[0].(If)
+			if !ok || i.T == nil {
+				return If{}
+			}
+			return If{T: types.Typ[types.String], V: concStr("type:" + types.TypeString(i.T, nil))}
+		}),
 		"reflect.DeepEqual": simple(func(e *Engine, s *State, a []Value, at ssa.Instruction, _ *ssa.Function) Value {
 			return Sc{e.deepEq(s, a[0], a[1], true, 0)}
 		}),
